@@ -29,6 +29,7 @@ type cdecl struct {
 
 type pkg struct {
 	consts map[string]cdecl
+	lits   map[string][]ast.Expr // <function>_<variable> -> the constant expressions assigned to that local variable
 	vars   map[string]ast.Expr
 	memo   map[string]constant.Value
 	busy   map[string]bool
@@ -258,7 +259,7 @@ func coqName(n string) string {
 }
 
 func loadPkg(dir string) (*pkg, error) {
-	p := &pkg{consts: map[string]cdecl{}, vars: map[string]ast.Expr{}, memo: map[string]constant.Value{}, busy: map[string]bool{}}
+	p := &pkg{consts: map[string]cdecl{}, lits: map[string][]ast.Expr{}, vars: map[string]ast.Expr{}, memo: map[string]constant.Value{}, busy: map[string]bool{}}
 	files, err := filepath.Glob(filepath.Join(dir, "*.go"))
 	if err != nil {
 		return nil, err
@@ -278,6 +279,19 @@ func loadPkg(dir string) (*pkg, error) {
 			if fd, isFn := d.(*ast.FuncDecl); isFn && fd.Body != nil {
 				// constants declared inside a function: <function>_<name> (a receiver does not enter the name)
 				ast.Inspect(fd.Body, func(n ast.Node) bool {
+					if as, ok := n.(*ast.AssignStmt); ok && (as.Tok == token.DEFINE || as.Tok == token.ASSIGN) && len(as.Lhs) == len(as.Rhs) {
+						// local variables given a constant: the defaults a function falls back to (pmtu := 1400, size = 32)
+						for i, l := range as.Lhs {
+							if id, ok := l.(*ast.Ident); ok && id.Name != "_" {
+								switch as.Rhs[i].(type) {
+								case *ast.BasicLit, *ast.BinaryExpr, *ast.ParenExpr, *ast.UnaryExpr:
+									key := fd.Name.Name + "_" + id.Name
+									p.lits[key] = append(p.lits[key], as.Rhs[i])
+								}
+							}
+						}
+						return true
+					}
 					ds, ok := n.(*ast.DeclStmt)
 					if !ok {
 						return true
@@ -363,6 +377,25 @@ func main() {
 				fmt.Fprintf(&b, "Definition %s : Z := %s.\n", coqName(n), zlit(v))
 			case constant.Bool:
 				fmt.Fprintf(&b, "Definition %s : bool := %v.\n", coqName(n), constant.BoolVal(v))
+			}
+		}
+		lnames := []string{}
+		for n := range p.lits {
+			lnames = append(lnames, n)
+		}
+		sort.Strings(lnames)
+		for _, n := range lnames {
+			if _, clash := p.consts[n]; clash {
+				continue
+			}
+			el := []string{}
+			for _, e := range p.lits[n] {
+				if v := p.eval(e, -1); v != nil && v.Kind() == constant.Int {
+					el = append(el, zlit(v))
+				}
+			}
+			if len(el) > 0 {
+				fmt.Fprintf(&b, "Definition %s : list Z := [%s].  (* constants assigned to a local variable *)\n", coqName(n), strings.Join(el, "; "))
 			}
 		}
 		vnames := []string{}
